@@ -5,7 +5,7 @@ from checks import common
 
 PID = "C06"
 WIT = [("Crypt_w_%s.cfg" % d, d) for d in ("aesv3_key_truncated", "metadata_exemption_ignored", "encrypt_dict_decrypted", "objstm_strings_decrypted_twice", "array_elements_not_decrypted", "catalog_read_before_decoder",
-                                          "metadata_flag_honoured_below_v4", "cf_bits_refused_for_owner", "aesv2_defaults_to_40_bits")]
+                                          "metadata_flag_honoured_below_v4", "cf_bits_refused_for_owner", "aesv2_defaults_to_40_bits", "uo_length_exact", "strf_ignored")]
 
 
 KDF = {}
